@@ -317,10 +317,22 @@ func (r *c04Run) subsites(in rows) {
 	for _, s := range cs.Sites {
 		fmt.Fprintf(&sf, "%d\n", s)
 	}
-	if !r.write("sites.txt", sf.String()) {
-		return
+	args := []string{"subsites", "-i", r.path("in.fa"), "-o", r.path("out.fa")}
+	switch cs.Build {
+	case "args": // the sites as arguments of the command
+		for _, s := range cs.Sites {
+			args = append(args, strconv.Itoa(s))
+		}
+	default:
+		txt := sf.String()
+		if cs.Build == "no-final-newline" {
+			txt = strings.TrimSuffix(txt, "\n")
+		}
+		if !r.write("sites.txt", txt) {
+			return
+		}
+		args = append(args, "--sitefile", r.path("sites.txt"))
 	}
-	args := []string{"subsites", "-i", r.path("in.fa"), "-o", r.path("out.fa"), "--sitefile", r.path("sites.txt")}
 	if cs.Flag {
 		args = append(args, "-r")
 	}
@@ -613,6 +625,10 @@ func c04RunCLIAll(maxList int) func(c *mc.Ctx, seqs []string) {
 				}
 				c04ForLists(L, listLen, func(sites []int) {
 					c04Check(c, c04Case{Op: "cli-subsites", Seqs: seqs, Sites: sites, Ref: ref, Flag: rev})
+					if len(sites) > 0 && sites[0] >= 0 {
+						c04Check(c, c04Case{Op: "cli-subsites", Seqs: seqs, Sites: sites, Ref: ref, Flag: rev, Build: "no-final-newline"})
+						c04Check(c, c04Case{Op: "cli-subsites", Seqs: seqs, Sites: sites, Ref: ref, Flag: rev, Build: "args"})
+					}
 				})
 			}
 		}
